@@ -397,6 +397,13 @@ def tagnum(t):
 
 # --- classification of oracle failures against the known findings (narrow, spec + observation) ---------------
 
+# The F12 class is pinned to the naming rule under which the finding was recorded: only '.' is rewritten to '_' in
+# path-derived module names. A collision that needs any other rewriting (e.g. '-' -> '_') is NOT the known finding: it
+# stays a fresh violation. The rule is cross-checked on every run against the Lean model's module-name function (which
+# consumes the translator's normalisation table) and pinned in Lean by `C13_module_inj_nodot`.
+F12_RULE_CHARS = "."
+
+
 def module_key(case, rel: str):
     """(dotted module name `import_path` uses for a file, ("pkg", pkg_root rel | None) | ("path", None)) — used for the
     classification of F12 only."""
@@ -421,7 +428,7 @@ def module_key(case, rel: str):
     names = parts[:-1] + [stem]
     if len(names) >= 2 and names[-1] == "__init__":
         names.pop()
-    return ".".join(n.replace(".", "_") for n in names), ("path", None)
+    return ".".join("".join("_" if ch in F12_RULE_CHARS else ch for ch in n) for n in names), ("path", None)
 
 
 def collision_files(case, ob):
@@ -592,9 +599,24 @@ class Gen:
         return {"imports": [], "stmts": [self.mkdef(n, n, style="def")]}
 
 
-DIRNAMES = ["a", "b", "pkg", "sub", "x.y", "x_y", "task_a", "build", ".hid", "src"]
-FILENAMES = ["task_x.py", "task_y.py", "task_a.py", "task_a.b.py", "task_a_b.py", "mod_x.py", "x_tasks.py", "notes.txt",
-             "code.py", "task_x.txt"]
+# name alphabets: '.', '-', '_', digits, mixed case, leading underscores / dots. A case draws its names from a few
+# families so that near-miss names (x.y / x_y, exp-1 / exp_1 / Exp_1, task_a.b / task_a_b / task_a-b) meet often.
+DIR_COMMON = ["a", "b", "pkg", "sub"]
+DIR_FAMILIES = [["x.y", "x_y", "x-y"], ["exp-1", "exp_1", "Exp_1", "exp.1"], ["task_a", "task-a", "src"], ["_priv", "__priv", "v2", "v-2", "v_2"],
+                ["build", ".hid", "_build"], ["A", "a_", "a-", "a."]]
+FILE_COMMON = ["task_x.py", "task_y.py", "mod_x.py"]
+FILE_FAMILIES = [["task_a.py", "task_a.b.py", "task_a_b.py", "task_a-b.py"], ["task_run.py", "task_Run.py", "task_run1.py", "task_run-1.py", "task_run_1.py"],
+                 ["x_tasks.py", "notes.txt", "code.py", "task_x.txt"], ["task__p.py", "task_.py", "_task_q.py", "task_x.PY"]]
+
+
+def name_pools(rng):
+    dirs = list(DIR_COMMON)
+    for fam in rng.sample(DIR_FAMILIES, 2):
+        dirs += fam
+    files = list(FILE_COMMON)
+    for fam in rng.sample(FILE_FAMILIES, rng.choice([1, 2])):
+        files += fam
+    return dirs, files
 
 
 def random_case(rng, cid, focus=None):
@@ -602,6 +624,7 @@ def random_case(rng, cid, focus=None):
     dirs, files = [], {}
     focus = focus or rng.choice(["layout", "layout", "program", "program", "mixed"])
     rich_prog = focus in ("program", "mixed")
+    DIRNAMES, FILENAMES = name_pools(rng)
 
     def add_file(rel, simple=False):
         if rel in files:
@@ -667,7 +690,8 @@ def random_case(rng, cid, focus=None):
         rng.shuffle(paths)
     ignore = []
     if rng.random() < 0.35:
-        pool = ["task_y.py", "sub", "sub/*", "a/*", "*/task_x.py", "b", "task_a*", "*.b.py", "pkg/task_*.py", "x?y", "x.y/*", "*_y", "src/*/task_x.py", "task_m.py"]
+        pool = ["task_y.py", "sub", "sub/*", "a/*", "*/task_x.py", "b", "task_a*", "*.b.py", "pkg/task_*.py", "x?y", "x.y/*", "*_y", "src/*/task_x.py", "task_m.py",
+                "exp-1", "exp?1", "*-1", "_*", "task_run*", "v?2/*"]
         ignore = [rng.choice(pool) for _ in range(rng.choice([1, 1, 2]))]
     task_files = None
     if rng.random() < 0.2:
@@ -715,6 +739,10 @@ def witness_cases():
     # controls: same stem in plain directories; duplicate id → exit 3; path given twice; helper left-over → exit 3
     out.append({"id": "w-ok-stems", "dirs": ["a", "b", "a/sub"], "paths": ["", "a", "a/task_x.py", ""], "ignore": [], "task_files": None, "files": {
         "a/task_x.py": one("task_x"), "b/task_x.py": one("task_x"), "a/sub/task_x.py": one("task_x"), "task_x.py": one("task_x")}})
+    # controls: sibling directories whose names differ only in a character the naming rule does not rewrite
+    out.append({"id": "w-ok-nearmiss", "dirs": ["exp-1", "exp_1", "Exp_1", "_exp_1"], "paths": [""], "ignore": [], "task_files": None, "files": {
+        "exp-1/task_run.py": one("task_run"), "exp_1/task_run.py": one("task_run"), "Exp_1/task_run.py": one("task_run"),
+        "_exp_1/task_run.py": one("task_run"), "exp_1/task_run-1.py": one("task_run"), "exp_1/task_run_1.py": one("task_run")}})
     a, b = g.mkdef("f", None, ["x"], {"x": ["i", 1]}), g.mkdef("f", None, ["x"], {"x": ["s", "1"]})
     out.append({"id": "w-ok-dupid", "dirs": [], "paths": [""], "ignore": [], "task_files": None, "files": {"task_m.py": {"imports": [], "stmts": [
         a, g.wrap(a["obj"]), b, g.wrap(b["obj"])]}}})
@@ -779,10 +807,27 @@ def nontrivial(case, ob, exp):
     return len(exp) >= 2
 
 
+def check_module_names(ctx, case, ob, d):
+    """The classifier's module-name rule must be the model's (state of the driver: the file system of this case)."""
+    rootp = ob["root"].lstrip("/")
+    files = [f for f in case["files"] if f.endswith(".py")]
+    if not files:
+        return
+    answers = d.batch([f"collect.modkey root={rootp} path={rootp}/{f}" for f in files])
+    for f, ans in zip(files, answers):
+        want = module_key(case, f)
+        exp = f"pkg={1 if want[1][0] == 'pkg' else 0} key={want[0]}"
+        if ans != exp:
+            ctx.disagreement(f"module-name-rule-differs: {f}: model `{ans}`, rule of the recorded finding F12 `{exp}`", {"case": case})
+            return
+
+
 def compare_model(ctx, case, ob):
     if not ctx.use_model:
         return
     d = ctx.driver()
+    d.batch(model_lines(case, ob, 0, 0)[:2])
+    check_module_names(ctx, case, ob, d)
     got = {"exit": ob["exit"], "tasks": sorted((t["name"], tagnum(t["tag"])) for t in ob["tasks"]),
            "exec": sorted(tagnum(t) for t in ob["executed"])}
     last = None
@@ -899,7 +944,7 @@ def campaign(ctx):
     cases = corpus_cases()
     have = {c["id"] for c in cases}
     cases += [c for c in witness_cases() if c["id"] not in have]
-    n = ctx.scale(180, 2500)
+    n = ctx.scale(160, 2500)
     for i in range(n):
         cases.append(random_case(rng, f"r{i}"))
     nworkers = 8 if not ctx.thorough else 12
